@@ -26,6 +26,7 @@ type cliCmd struct {
 	Service    string // "Query" or "Tx"
 	RpcMethod  string
 	Use        string
+	Alias      []string
 	Skip       bool
 	Positional []string
 	Cond       string // non-empty: only present under this condition
@@ -180,6 +181,15 @@ func (V *Verifier) scanAutoCLI() []*Oblig {
 		if c.Use != "" {
 			add("command-name-names-its-rpc/"+id, cmdName == kebabCase(c.RpcMethod), "the command a user types is the kebab-case name of the rpc method it calls (list-bid calls ListBid): a command wired to another method sends a different request than its name and help promise", fmt.Sprintf("command %q calls %s", cmdName, c.RpcMethod))
 		}
+		// aliases share the name space of the commands of their service
+		for _, a := range c.Alias {
+			if prev, dup := names[c.Service][a]; dup {
+				add("command-names-unique/"+id+"/alias-"+a, false, "an alias must not be the name or alias of another command of the service (cobra resolves it to the first match: the other command becomes unreachable under it)", fmt.Sprintf("alias %q of %s is already used by %s", a, c.RpcMethod, prev))
+			} else {
+				names[c.Service][a] = c.RpcMethod
+				add("command-names-unique/"+id+"/alias-"+a, true, "an alias must not be the name or alias of another command of the service", a)
+			}
+		}
 		if prev, dupName := names[c.Service][cmdName]; dupName {
 			add("command-names-unique/"+id, false, "two rpc methods of one service must not share a command name (autocli silently drops the second)", fmt.Sprintf("%q is used by %s and %s", cmdName, prev, c.RpcMethod))
 		} else {
@@ -270,6 +280,18 @@ func extractCLI(V *Verifier, pkg *packages.Package) ([]cliCmd, error) {
 					return fmt.Errorf("%s: Use is not a constant string", c.Pos)
 				}
 				c.Use = s
+			case "Alias":
+				al, ok := kv.Value.(*ast.CompositeLit)
+				if !ok {
+					return fmt.Errorf("%s: Alias is not a literal", c.Pos)
+				}
+				for _, ae := range al.Elts {
+					a, ok := str(ae)
+					if !ok {
+						return fmt.Errorf("%s: alias is not a constant string", c.Pos)
+					}
+					c.Alias = append(c.Alias, a)
+				}
 			case "Skip":
 				if tv, ok := info.Types[kv.Value]; ok && tv.Value != nil {
 					c.Skip = constant.BoolVal(tv.Value)
